@@ -40,7 +40,7 @@ class Exchange:
 
 
 class LiveWorld:
-    def __init__(self, rng, strategy_names=("live",), async_orders=False):
+    def __init__(self, rng, strategy_names=("live",), async_orders=False, truthful=False, with_market=True):
         common.use_repo()
         from flumine import Flumine, clients, BaseStrategy
         from flumine.markets.market import Market
@@ -51,6 +51,7 @@ class LiveWorld:
         self.fw = Flumine(client=self.client)
         self.fw.log_control = lambda e: None
         self.async_orders = async_orders
+        self.truthful = truthful   # the double never reports BET_TAKEN_OR_LAPSED for a bet that is still resting
         self.pending = []          # captured packages not yet executed
         self.fw.betfair_execution.handler = lambda p: self.pending.append(p)
         self.strategies = []
@@ -63,7 +64,8 @@ class LiveWorld:
         book = mock.Mock(publish_time=123, bet_delay=0, status="OPEN", runners=[], number_of_active_runners=3, number_of_winners=1)
         book.market_id = self.market_id
         self.market = Market(self.fw, self.market_id, book)
-        self.fw.markets.add_market(self.market_id, self.market)
+        if with_market:
+            self.fw.markets.add_market(self.market_id, self.market)
         self.orders = []           # local orders by model id
         self.ops = []              # model ops
         self.charged = 0           # bets submitted by answered calls (oracle)
@@ -174,6 +176,8 @@ class LiveWorld:
                 bet = self.ex.bets.get(int(ins["betId"]))
                 if bet and bet["remaining"] == 0 and oc["status"] == "SUCCESS":
                     oc["status"], oc["error"] = "FAILURE", "BET_TAKEN_OR_LAPSED"      # nothing left to cancel
+                if self.truthful and oc["status"] == "FAILURE" and oc.get("error") == "BET_TAKEN_OR_LAPSED" and bet and bet["remaining"] > 0:
+                    oc["error"] = "ERROR_IN_ORDER"
                 rep = {"status": oc["status"], "instruction": ins}
                 if oc["status"] == "SUCCESS":
                     sc = bet["remaining"] if bet else 0.0
